@@ -409,6 +409,18 @@ class Machine:
                 an = dotted(n.args[0])
                 if an in self.lists:
                     return Joined(self.lists[an])
+            if m == 'get' and 1 <= len(n.args) <= 2:
+                # table.get(key[, default]) on a folded dict constant
+                try:
+                    base = self.eval(n.func.value)
+                except AnalysisError:
+                    base = None
+                if isinstance(base, dict):
+                    idx = self.eval(n.args[0])
+                    dflt = self.eval(n.args[1]) if len(n.args) == 2 else None
+                    if idx is OTHER or idx is None or idx not in base:
+                        return dflt
+                    return base[idx]
             if m == 'casefold' and not n.args:
                 v = self.eval(n.func.value)
                 if v is None:
